@@ -157,9 +157,14 @@ class Interp(Exec):
         v = self.ev(s.exc)
         if isinstance(v, VClass):
             v = VExc(v.name, [])
+        if isinstance(v, VObj):
+            v = self.exc_of_obj(v)
         if not isinstance(v, VExc):
             raise Unsupported("raise of non-exception %r" % (v,))
         raise PyRaise(v)
+
+    def exc_of_obj(self, v):
+        return v
 
     def st_Try(self, s):
         try:
@@ -664,6 +669,12 @@ class Interp(Exec):
             return VBuiltin(name)
         if self.spec_mode and name in self.reg.enums:
             return VClass(name)       # an enumeration declared by the contract module, named in a clause evaluated in a frame that does not import it
+        cm = getattr(self, "_callee_mod", None)
+        if self.spec_mode and cm:
+            # a clause of a callee's contract: its names are those of the callee's own module
+            v = self.resolve_module_name(cm, name)
+            if v is not None:
+                return v
         top = getattr(self, "fi", None)
         if self.spec_mode and top is not None and fi is not None and top.module != fi.module:
             # a clause of a callee's contract evaluated inside an inlined helper of another module: names are those of the function under verification
